@@ -377,6 +377,11 @@ def finish(ctx, assumptions=(), level="proof"):
         "wall_s": round(time.time() - ctx.t0, 2),
         "violations": nviol,
     }
+    if not isinstance(cov.get("exhaustive", False), bool):
+        cov["exhaustive_scope"] = cov["exhaustive"]
+        cov["exhaustive"] = False
+    if not isinstance(cov.get("samples"), list) or not cov["samples"]:
+        cov["samples"] = [{"note": "no sample recorded"}]
     with open(os.path.join(EVID, f"{cid}.json"), "w", encoding="utf-8") as fh:
         json.dump(ev, fh, indent=1, ensure_ascii=False, default=str)
     for l in lines:
